@@ -217,6 +217,32 @@ def oracle_full_covers_box(rng):
     return None
 
 
+def oracle_uncovered_positive_term(rng):
+    """membership tests with purely numeric coefficients: a positive term whose exponent is disjoint from the negative term's (it ends up in no AGE
+    cover) does not prevent a certificate; f = 1 + exp(x2) + exp(2 x1) - exp(x1) has one negative term and minimum 3/4, in every term order, on R^2
+    and on a box, and after an invertible linear change of variables"""
+    from sageopt.relaxations import sage_sigs as ss
+    base_rows = [([Fraction(0), Fraction(0)], Fraction(1)), ([Fraction(0), Fraction(1)], Fraction(1)), ([Fraction(2), Fraction(0)], Fraction(1)),
+                 ([Fraction(1), Fraction(0)], Fraction(-1))]
+    M = [[Fraction(1), Fraction(1)], [Fraction(0), Fraction(1)]]
+    with warnings.catch_warnings():
+        warnings.simplefilter('ignore')
+        for name, rows in (('1 + exp(x2) + exp(2 x1) - exp(x1)', base_rows), ('the same terms in another order', [base_rows[3], base_rows[1], base_rows[0], base_rows[2]]),
+                           ('the same function after x -> M x', [([a[0] * M[0][0] + a[1] * M[1][0], a[0] * M[0][1] + a[1] * M[1][1]], c) for a, c in base_rows])):
+            f = sig(rows, 2)
+            for X, xn in ((None, 'R^2'), (sagecorr.make_domain(rng, 2, 'box')[0], 'the box [-1, 2]^2')):
+                if X is not None and 'M x' in name:
+                    continue
+                st, val = ss.sage_feasibility(f, X).solve(verbose=False)
+                if not (st == 'solved' and val > -np.inf):
+                    return ('sage_feasibility of %s over %s reports (%s, %r): one negative term, minimum 3/4 > 0, so it is SAGE' % (name, xn, st, val))
+            fneg = sig([(a, c if a != [Fraction(0), Fraction(0)] else Fraction(1, 5)) for a, c in rows], 2)      # constant 0.2: minimum -0.05
+            st, val = ss.sage_feasibility(fneg, None).solve(verbose=False)
+            if st == 'solved' and val > -np.inf:
+                return 'sage_feasibility certifies %s with the constant replaced by 0.2 (minimum -0.05)' % name
+    return None
+
+
 def oracle_conditional(rng):
     """at most one negative coefficient over a conic X (incl. equality blocks followed by other cones, a box in the negative
     orthant): both forms are lower bounds on sampled points of X, primal <= dual, and the optimisation-based cover presolve
@@ -455,7 +481,7 @@ def covers_suite(ctx):
 
 def run(ctx):
     covers_suite(ctx)
-    for name, f, reps in (('directed', oracle_directed, 1), ('full_covers_box', oracle_full_covers_box, 1), ('circuit', oracle_circuit, ctx.n(4, 30)), ('one_negative_box', oracle_one_negative_box, ctx.n(6, 60)),
+    for name, f, reps in (('directed', oracle_directed, 1), ('full_covers_box', oracle_full_covers_box, 1), ('uncovered_positive_term', oracle_uncovered_positive_term, 1), ('circuit', oracle_circuit, ctx.n(4, 30)), ('one_negative_box', oracle_one_negative_box, ctx.n(6, 60)),
                           ('conditional', oracle_conditional, ctx.n(40, 300))):
         for _ in range(reps):
             why = f(ctx.rng)
